@@ -13,7 +13,7 @@ PROP = "C02"
 TECHNIQUE = "Hypothesis-generated edge grids with constructed ulp/slack neighbourhoods of every selected edge vs. exact rational binning oracle; generator outputs vs. correctly rounded decimal grid"
 RULE = ("one case = an edge grid (decimal start, decimal step, n edges; built as correctly-rounded decimal grid, numpy.arange, "
         "the library's cleaner_range/magnitude_bins, integer grid, or a shipped region's xs/ys) x mode (closed/open) x input kind "
-        "(ndarray, list, scalars, float32, int) with probe values constructed on selected edges (edge, +-1,2,3,4096 ulps, "
+        "(ndarray, list, tuple, scalars, float32, int, read-only / big-endian / strided / zero-copy float64 arrays) with probe values constructed on selected edges (edge, +-1,2,3,4096 ulps, "
         "2x/10x/1000x slack below, bin centre), below the first edge and around/beyond the last; checked through bin1d_vec, "
         "discretize, CSEPCatalog.get_mag_idx/magnitude_counts, GriddedForecast.get_magnitude_index, plus the generators "
         "cleaner_range/magnitude_bins against the exact decimal grid. Non-trivial = grid with >= 3 edges and a probe equal to an "
